@@ -100,7 +100,9 @@ def run(ctx):
         kw.pop("psi", None)
         with monitors.quiet():
             table = [[float(dtw_ndim.distance(np.array(ss[a]), np.array(ss[b]), **kw)) for b in range(k)] for a in range(k)]
-        conts = [("list2d", [np.array(s) for s in ss], (False, True))]
+        conts = [("list2d", [np.array(s) for s in ss], (False, True)),
+                 ("list2d_F", [np.asfortranarray(np.array(s, dtype=float)) for s in ss], (False, True)),
+                 ("list2d_Tview", [np.ascontiguousarray(np.array(s, dtype=float).T).T for s in ss], (False, True))]
         if equal:
             conts.append(("3d", np.array(ss), (False, True)))
         for cname, data, engines in conts:
